@@ -405,12 +405,16 @@ def c19(scn, run):
                     for fld in ("flows", "held", "outputs", "sat"):
                         if a[fld] != b[fld]:
                             return f"{list(k)} {fld} {b[fld]} came back as {a[fld]} after restart"
-                for fld in ("hold_point", "to_hold", "stop_task", "flow_counter", "abs_done"):
-                    if before[fld] != after[fld]:
+                for fld in ("hold_point", "to_hold", "stop_task", "flow_counter", "abs_done", "bcast"):
+                    if before.get(fld) != after.get(fld):
                         return f"{fld} {before[fld]} came back as {after[fld]} after restart"
                 if before["stop_point"] != after["stop_point"] and not (
                         sd and sd[-1]["reason"] == "AUTOMATIC"):
                     return f"stop point {before['stop_point']} came back as {after['stop_point']}"
+            if e["e"] == "tick_end" and isinstance(e["snap"].get("bcast_db"), list) \
+                    and e["snap"]["bcast_db"] != e["snap"]["bcast"]:
+                return (f"broadcasts in force {e['snap']['bcast']} but the database holds {e['snap']['bcast_db']} "
+                        f"at the end of a main-loop iteration (a restart would lose / resurrect settings)")
             last = e
     other_ops = [o for o in scn.get("ops", []) if o["cmd"] != "restart"]
     if run.get("baseline") and not run["baseline"].get("error") and not run["meta"].get("error") and not other_ops:
